@@ -926,6 +926,14 @@ class DocutilsRenderer(RendererProtocol):
         implicit_text: str | None = None
 
         if conversion is not None:
+            try:
+                urlparse(self.md.normalizeLinkText(uri))
+            except ValueError:
+                # the URL cannot be split into parts (e.g. "Invalid IPv6 URL"),
+                # so is rendered as a plain link, without the conversion
+                conversion = None
+
+        if conversion is not None:
             # implicit_template: str | None = None
             # if isinstance(conversion, (list, tuple)):
             #     href_template, implicit_template = conversion
